@@ -81,6 +81,13 @@ def probes():
                 cfg.contracts = ((b'C', 'e'),)
                 cfg.sigexts = ('l7',)
             P[f'flag{i}={"on" if on else "off"}'] = (mod, {'sigfield1': b'f1'}, pb, keys)
+    # the same probe executed twice in one run: reading a flag must not change it
+    for i, (pb, keys) in flag_probe.items():
+        def mod(cfg, i=i):
+            cfg.mask = 2047 ^ (1 << i)
+            cfg.contracts = ((b'C', 'e'),)
+            cfg.sigexts = ('l7',)
+        P[f'twice:flag{i}=off'] = (mod, {'sigfield1': b'f1'}, pb + pb, keys)
     def ts0(cfg): cfg.ts = 0
     P['ts_threshold=0'] = (ts0, {'timestamp': vmrun.NOW + 1000}, push(b'\x01') + op('CHECK_TIMESTAMP') + wr(b'Z'), [b'Z'])
     def ts1000(cfg): cfg.ts = 2000
@@ -95,6 +102,10 @@ def probes():
     def noeval(cfg): cfg.disallow_eval = True
     inner = op('TRUE') + wr(b'Z')
     P['disallow_OP_EVAL'] = (noeval, {}, op('TRY_EXCEPT') + u2(len(push(inner) + op('EVAL'))) + push(inner) + op('EVAL') + u2(len(op('FALSE') + wr(b'Z'))) + op('FALSE') + wr(b'Z'), [b'Z'])
+    # ... also when the evaluation is asked for through MERKLEVAL or the TAPROOT script path
+    for cname in ('MERKLEVAL', 'TAPROOT'):
+        ev = CONTEXTS[cname](inner)
+        P['disallow_OP_EVAL/' + cname] = (noeval, {}, op('TRY_EXCEPT') + u2(len(ev)) + ev + u2(len(op('FALSE') + wr(b'Z'))) + op('FALSE') + wr(b'Z'), [b'Z'])
     def evret(cfg): cfg.eval_return = True
     # eval_return: RETURN inside an evaluated script ends the enclosing function; probe inside its own function so the nesting survives
     fn = push(op('RETURN')) + op('EVAL') + op('TRUE') + wr(b'Z')
@@ -134,6 +145,8 @@ def probes():
 
 
 def want_top(pname):
+    if pname.startswith('twice:'): pname = pname[6:]
+    if pname.startswith('disallow_OP_EVAL/'): pname = 'disallow_OP_EVAL'
     if pname.startswith('flag') and pname != 'flag10=on' and pname != 'flag10=off':
         return (lambda ob: ob[1][0][1] is None) if pname.endswith('=off') else (lambda ob: ob[1][0][1] is not None)
     if pname == 'flag10=off': return lambda ob: ob[2] == '-'
@@ -175,7 +188,7 @@ def run(ctx: Ctx) -> Result:
             for cname in reversed(nest):
                 b = CONTEXTS[cname](b)
             if len(b) > 60000: continue
-            if pname in ('disallow_OP_EVAL', 'max_item_size=40') and any(c in ('EVAL', 'MERKLEVAL', 'TAPROOT') for c in nest):
+            if (pname in ('disallow_OP_EVAL', 'max_item_size=40') or pname.startswith('disallow_OP_EVAL/')) and any(c in ('EVAL', 'MERKLEVAL', 'TAPROOT') for c in nest):
                 continue        # the context itself needs the disallowed instruction / pushes its body as an item
             cases.append((pname, cfg, cache, nest, b, keys))
     outs = []
